@@ -1,4 +1,6 @@
 import TSSVerif.Proofs.DiscTrace
+import TSSVerif.Gen.Stmts
+import TSSVerif.Model.StmtsExpected
 /-!
 # C07 — membership synchronisation: agreed lists are valid and identical; honest runs finish
 
@@ -645,5 +647,12 @@ theorem member_handle_spec (m : Member) (src : Id) (msg : Bytes) :
           exact Or.inr ⟨ty, tag, peers, t, s, k, hd, hl, hs, hk, rfl, rfl⟩
         · exact Or.inl ⟨rfl, Or.inl rfl⟩
 
+
+
+/-- **The source the model was transcribed from is the current source**: the statements of `Synchronize`, `intersectedView`, `myMemberViewSorted`, registration, `HandleMessage` and its three handlers, regenerated from
+`/repo` on this run, are the committed ones (logging left out). A change of any of them — harmless or not — fails here
+first; the differential and monitored runs of this property are then the search for an input on which it fails. -/
+theorem source_as_modelled : TSSVerif.Gen.Stmts.disc = TSSVerif.Model.StmtsExpected.disc := by
+  decide +kernel
 
 end TSSVerif.Props.C07
